@@ -63,11 +63,16 @@ ZHalf(ty)  == {Z(FALSE, Add(Pow2L(Bits(ty) - (IF Signed(ty) THEN 2 ELSE 1)), Fro
               {Z(FALSE, Sub(Pow2L(Bits(ty) - (IF Signed(ty) THEN 2 ELSE 1)), One))}              \* around max/2
 ZBottom(ty) == IF Signed(ty) THEN {Z(TRUE, Pow2L(Bits(ty) - 1)), Z(TRUE, Sub(Pow2L(Bits(ty) - 1), One))} ELSE {ZInt(0)}   \* min, min+1
 ZSmall     == {ZInt(k) : k \in {0, 1, 2, 3, 7, 100}}
+\* neighbourhoods of the powers of two at which narrower types end (127/128, 255/256/257, 65535/65536/65537, 2^24, 2^31, 2^32 +- 1)
+ZPow(ty)   == {z \in {Z(FALSE, Add(Sub(Pow2L(k), One), FromInt(d))) : k \in {7, 8, 15, 16, 24, 31, 32}, d \in 0..2} : LessEq(z.m, ZMaxL(ty))}
 DruWide == UNION {{[a |-> "Dru", arg |-> [ty |-> ty, bits |-> Bits(ty), sgn |-> IF Signed(ty) THEN 1 ELSE 0, a |-> a, b |-> b]] :
-                      a \in ZTop(ty) \cup ZHalf(ty) \cup ZSmall, b \in ZTop(ty) \cup ZHalf(ty) \cup (ZSmall \ {ZInt(0)})} : ty \in IntTypes}
+                      a \in ZTop(ty) \cup ZHalf(ty) \cup ZSmall \cup ZPow(ty), b \in ZTop(ty) \cup ZHalf(ty) \cup (ZSmall \ {ZInt(0)}) \cup ZPow(ty)} : ty \in IntTypes}
 ClampIVals(ty) == ZTop(ty) \cup ZBottom(ty) \cup {ZInt(k) : k \in {0, 1, 5, 100}} \cup (IF Signed(ty) THEN {ZInt(-1), ZInt(-100)} ELSE {})
-ClampI == UNION {{[a |-> "ClampI", arg |-> [ty |-> ty, x |-> x, lo |-> lo, hi |-> hi]] : x \in ClampIVals(ty), lo \in ClampIVals(ty), hi \in ClampIVals(ty)} :
-                     ty \in IF Level = 0 THEN {"i8", "u16", "i32", "u32", "i64", "u64"} ELSE IntTypes}
+                  \cup {z \in ZPow(ty) : z.m \in {Pow2L(8), Pow2L(16), Pow2L(31), Pow2L(32)}}
+\* thorough: x also runs through every power-of-two neighbourhood
+ClampIX(ty) == IF Level = 0 THEN ClampIVals(ty) ELSE ClampIVals(ty) \cup ZPow(ty)
+ClampI == UNION {{[a |-> "ClampI", arg |-> [ty |-> ty, x |-> x, lo |-> lo, hi |-> hi]] : x \in ClampIX(ty), lo \in ClampIVals(ty), hi \in ClampIVals(ty)} :
+                     ty \in IntTypes}
 
 \* ---- binary32 patterns --------------------------------------------------------------------
 Pat(s, e, f) == ToHalves([s |-> s, e |-> e, f |-> f])
@@ -88,8 +93,43 @@ SignB == {[a |-> "Sign", arg |-> [x |-> x]] : x \in FEdge}
 DegVals == {Encode(FALSE, k, -3) : k \in 0..360} \cup {Encode(FALSE, k, 0) : k \in 46..720} \cup {Encode(TRUE, k, 0) : k \in {1, 45, 90, 180, 360}}
 Deg2Rad == {[a |-> "Deg2Rad", arg |-> [x |-> ToHalves(d)]] : d \in DegVals} \cup {[a |-> "Deg2Rad", arg |-> [x |-> x]] : x \in FEdge}
 
+\* ---- lerp<T> for the integer types ----------------------------------------------------------
+\* small operands, factors k/8: (8 - f) a + f b is an exact float; the conversion back to T truncates towards zero
+TruncDiv8(n) == IF n >= 0 THEN n \div 8 ELSE 0 - ((0 - n) \div 8)
+LatLerpI == UNION {{[a |-> "LatLerpI", arg |-> [ty |-> ty, f |-> f, a |-> a, b |-> b], exp |-> [v |-> TruncDiv8((8 - f) * a + f * b)]] :
+                      f \in {0, 2, 4, 6, 8}, a \in IF Signed(ty) THEN {-100, -4, 0, 1, 8, 120} ELSE {0, 1, 4, 8, 100, 120},
+                      b \in IF Signed(ty) THEN {-100, -4, 0, 1, 8, 120} ELSE {0, 1, 4, 8, 100, 120}} : ty \in IntTypes}
+\* operands at the ends of the type and around 2^24 (where binary32 stops holding every integer): judged by LerpIntOk
+LerpIVals(ty) == ZTop(ty) \cup ZBottom(ty) \cup {ZInt(0), ZInt(1)} \cup {z \in ZPow(ty) : z.m \in {Pow2L(24), Add(Pow2L(24), One), Pow2L(31)}}
+LerpI == UNION {{[a |-> "LerpI", arg |-> [ty |-> ty, bits |-> Bits(ty), sgn |-> IF Signed(ty) THEN 1 ELSE 0, f |-> L8f, a |-> a, b |-> b]] :
+                   L8f \in {ToHalves(Encode(FALSE, k, -3)) : k \in {0, 2, 4, 8}}, a \in LerpIVals(ty), b \in LerpIVals(ty)} : ty \in IntTypes}
+
+\* ---- binary64 patterns (four 16-bit quarters) for the double instantiations ------------------------
+DQ(sg, e, f4, q2, q3, q4) == <<sg * 32768 + e * 16 + f4, q2, q3, q4>>
+DBoth(e, f4, q2, q3, q4) == {DQ(0, e, f4, q2, q3, q4), DQ(1, e, f4, q2, q3, q4)}
+\* zeros, smallest / largest denormal, a denormal below the binary32 range, smallest normal, the ends of the binary32
+\* range seen as doubles (2^-149, 2^-126, FLT_MAX, 2^128), 1, 1 + 2^-52, 1 - 2^-53, 0.5, 2, 3 (not a power of two), DBL_MAX
+DFinite == DBoth(0, 0, 0, 0, 0) \cup DBoth(0, 0, 0, 0, 1) \cup DBoth(0, 15, 65535, 65535, 65535) \cup DBoth(0, 0, 1, 0, 0) \cup DBoth(1, 0, 0, 0, 0)
+           \cup DBoth(874, 0, 0, 0, 0) \cup DBoth(897, 0, 0, 0, 0) \cup DBoth(1150, 15, 65535, 57344, 0) \cup DBoth(1151, 0, 0, 0, 0)
+           \cup DBoth(1023, 0, 0, 0, 0) \cup {DQ(0, 1023, 0, 0, 0, 1), DQ(0, 1022, 15, 65535, 65535, 65535), DQ(0, 1022, 0, 0, 0, 0), DQ(0, 1024, 0, 0, 0, 0),
+                                             DQ(0, 1024, 8, 0, 0, 0)} \cup DBoth(2046, 15, 65535, 65535, 65535)
+DSpecial == DBoth(2047, 0, 0, 0, 0) \cup {DQ(0, 2047, 8, 0, 0, 0)}
+DBound  == DBoth(0, 0, 0, 0, 0) \cup DBoth(1023, 0, 0, 0, 0) \cup DBoth(2046, 15, 65535, 65535, 65535) \cup {DQ(0, 0, 0, 0, 0, 1), DQ(0, 1023, 0, 0, 0, 1), DQ(0, 1150, 15, 65535, 57344, 0)}
+\* the double k * 2^sh for 0 < k < 2^31
+RECURSIVE DNorm(_, _)
+DNorm(m, k) == IF m >= 1073741824 THEN <<m, k>> ELSE DNorm(2 * m, k - 1)
+DOfInt(k, sh) == LET n == DNorm(k, sh) IN LET fr == n[1] - 1073741824 IN
+                   DQ(0, n[2] + 30 + 1023, fr \div 67108864, (fr \div 1024) % 65536, (fr % 1024) * 64, 0)
+ASSUME DOfInt(1, 0) = DQ(0, 1023, 0, 0, 0, 0) /\ DOfInt(3, -1) = DQ(0, 1023, 8, 0, 0, 0) /\ DOfInt(180, 0) = DQ(0, 1030, 6, 32768, 0, 0)
+RcpSafeD == {[a |-> "RcpSafeD", arg |-> [x |-> x]] : x \in DFinite \cup DSpecial}
+ClampD   == {[a |-> "ClampD", arg |-> [x |-> x, lo |-> lo, hi |-> hi]] : x \in DFinite, lo \in DBound, hi \in DBound}
+Deg2RadD == {[a |-> "Deg2RadD", arg |-> [x |-> x]] : x \in DFinite \cup {DOfInt(k, -3) : k \in 1..360} \cup {DOfInt(k, 0) : k \in 46..720}}
+LerpD    == {[a |-> "LerpD", arg |-> [f |-> L8(f), a |-> a, b |-> b]] : f \in {0, 2, 4, 8, 12, -4},
+               a \in DBound \cup {DOfInt(3, 0), DOfInt(1, -30)}, b \in DBound \cup {DOfInt(3, 0), DOfInt(1, -30)}}
+
 Cases == SetToSeq(LatSign) \o SetToSeq(LatMadd) \o SetToSeq(LatLerp) \o SetToSeq(LatDruOK) \o SetToSeq(DruWide) \o SetToSeq(ClampI)
          \o SetToSeq(ClampF) \o SetToSeq(MaddB) \o SetToSeq(LerpB) \o SetToSeq(SignB) \o SetToSeq(Deg2Rad)
+         \o SetToSeq(LatLerpI) \o SetToSeq(LerpI) \o SetToSeq(RcpSafeD) \o SetToSeq(ClampD) \o SetToSeq(Deg2RadD) \o SetToSeq(LerpD)
 
 ASSUME ndJsonSerialize(IOEnv.OUT, Cases)
 ASSUME PrintT(<<"C07-CASES", Len(Cases)>>)
